@@ -3,7 +3,11 @@ C02 — after any mutation an agent is coherent: optimizers, targets and critics
 
 Correspondence (vs Model/Coherence.lean, token `coh`): multi-generation histories
 (tournament select -> `Mutations.mutation(pop)` -> learn) on real populations of all eleven
-algorithms.  The registry descriptor of every agent (network groups, roles, optimizers, their
+algorithms AND of a family of synthetic algorithms defined here through the public registry API
+(`syn_shapes`: policy with / without target x 0..2 extra evaluation groups with / without target x
+one optimizer per network / one over several networks x separate / shared lr attributes x list
+groups), because `Mutations` is driven by the registry, not by the built-ins' particular shapes.
+The registry descriptor of every agent (network groups, roles, optimizers, their
 networks and lr attribute, the mutation hook as visible in which tensors are detached) is read from
 the live object and handed to the model.  The kind each agent draws is recorded by wrapping the
 mutation options (and `HyperparameterConfig.sample`); the applied architecture method is read from
@@ -501,9 +505,202 @@ def make_hp_config(algo: str, hps):
     return HyperparameterConfig(**kw)
 
 
+# ------------------------------------------------------------------------------ synthetic algorithms
+# `Mutations` is driven by the registry, not by the eleven built-in algorithms: the family below is
+# defined through the public API (RLAlgorithm subclass, NetworkGroup, OptimizerWrapper, tiny
+# EvolvableMLPs, a trivial learn) and varies the registry shape systematically.
+#   shape = {"pt": policy has a target, "extras": [target? per extra evaluation group (0..2)],
+#            "opt": "per-net" | "joint" (one optimizer over every evaluation network) |
+#                   "joint-extras" (policy optimizer + one optimizer over all extra networks),
+#            "lr": "separate" | "shared" | "mixed" (extras share one lr attribute), "multi": list groups}
+SYN = "SYN"
+_SYN: dict = {}
+SYN_LR_NAMES = ["lr", "lr_b", "lr_c"]
+
+
+def syn_lr_plan(shape: dict) -> list:
+    """lr attribute name of each optimizer, in registration order"""
+    n_ex = len(shape["extras"])
+    n_opt = {"per-net": 1 + n_ex, "joint": 1, "joint-extras": 2 if n_ex else 1}[shape["opt"]]
+    mode = shape.get("lr", "separate")
+    if mode == "shared":
+        return ["lr"] * n_opt
+    if mode == "mixed":
+        return ["lr"] + ["lr_b"] * (n_opt - 1)
+    return SYN_LR_NAMES[:n_opt]
+
+
+def syn_class():
+    if "cls" in _SYN:
+        return _SYN["cls"]
+    import torch.optim as optim
+    from agilerl.algorithms.core import RLAlgorithm
+    from agilerl.algorithms.core.registry import NetworkGroup
+    from agilerl.algorithms.core.wrappers import OptimizerWrapper
+    from agilerl.modules.mlp import EvolvableMLP
+
+    class SynAlgo(RLAlgorithm):
+        """registry-shaped toy algorithm; every NetworkGroup / OptimizerWrapper is created directly in
+        __init__ (the library infers attribute names from the caller's frame)"""
+
+        def __init__(self, observation_space, action_space, index=0, shape=None, lr=0.001, lr_b=0.002, lr_c=0.004,
+                     batch_size=8, tau=0.5, hp_config=None, device="cpu", accelerator=None, wrap=True):
+            super().__init__(observation_space, action_space, index=index, hp_config=hp_config, device=device,
+                             accelerator=accelerator, name="SynAlgo")
+            self.shape = shape
+            self.lr, self.lr_b, self.lr_c = lr, lr_b, lr_c
+            self.batch_size, self.tau = batch_size, tau
+            n_obs, n_act = observation_space.shape[0], action_space.shape[0]
+            multi, n_sub = bool(shape.get("multi")), 2
+
+            def mlp(n_out):
+                return EvolvableMLP(n_obs, n_out, hidden_size=[32], min_mlp_nodes=8, max_mlp_nodes=128, device=device)
+
+            # networks: policy first, then the extra evaluation groups, each followed by its target
+            if multi:
+                self.actors = [mlp(n_act) for _ in range(n_sub)]
+                if shape["pt"]:
+                    self.actor_targets = [mlp(n_act) for _ in range(n_sub)]
+                    for t, e in zip(self.actor_targets, self.actors):
+                        t.load_state_dict(e.state_dict())
+            else:
+                self.actor = mlp(n_act)
+                if shape["pt"]:
+                    self.actor_target = mlp(n_act)
+                    self.actor_target.load_state_dict(self.actor.state_dict())
+            for k, has_t in enumerate(shape["extras"]):
+                if multi:
+                    setattr(self, f"critics_{k + 1}", [mlp(1) for _ in range(n_sub)])
+                    if has_t:
+                        setattr(self, f"critic_targets_{k + 1}", [mlp(1) for _ in range(n_sub)])
+                        for t, e in zip(getattr(self, f"critic_targets_{k + 1}"), getattr(self, f"critics_{k + 1}")):
+                            t.load_state_dict(e.state_dict())
+                else:
+                    setattr(self, f"critic_{k + 1}", mlp(1))
+                    if has_t:
+                        setattr(self, f"critic_target_{k + 1}", mlp(1))
+                        getattr(self, f"critic_target_{k + 1}").load_state_dict(getattr(self, f"critic_{k + 1}").state_dict())
+            pol = "actors" if multi else "actor"
+            ex = [(f"critics_{k + 1}" if multi else f"critic_{k + 1}") for k in range(len(shape["extras"]))]
+            plan = [getattr(self, n) for n in syn_lr_plan(shape)]
+            # optimizers
+            if shape["opt"] == "joint" and not multi:
+                self.optimizer = OptimizerWrapper(optim.Adam, networks=[getattr(self, n) for n in [pol] + ex]
+                                                  if ex else getattr(self, pol), lr=plan[0])
+            else:
+                if multi:
+                    self.actor_optimizers = OptimizerWrapper(optim.Adam, networks=self.actors, lr=plan[0], multiagent=True)
+                else:
+                    self.actor_optimizer = OptimizerWrapper(optim.Adam, networks=self.actor, lr=plan[0])
+                if shape["opt"] == "joint-extras" and not multi and len(ex) > 1:
+                    self.critics_optimizer = OptimizerWrapper(optim.Adam, networks=[getattr(self, n) for n in ex], lr=plan[1])
+                else:
+                    for k, n in enumerate(ex):
+                        if multi:
+                            setattr(self, f"critic_{k + 1}_optimizers",
+                                    OptimizerWrapper(optim.Adam, networks=getattr(self, n), lr=plan[min(k + 1, len(plan) - 1)],
+                                                     multiagent=True))
+                        else:
+                            setattr(self, f"critic_{k + 1}_optimizer",
+                                    OptimizerWrapper(optim.Adam, networks=getattr(self, n), lr=plan[min(k + 1, len(plan) - 1)]))
+            # registry
+            if multi:
+                self.register_network_group(NetworkGroup(eval=self.actors, shared=self.actor_targets if shape["pt"] else None,
+                                                         policy=True, multiagent=True))
+            else:
+                self.register_network_group(NetworkGroup(eval=self.actor, shared=self.actor_target if shape["pt"] else None,
+                                                         policy=True))
+            for k, has_t in enumerate(shape["extras"]):
+                if multi:
+                    self.register_network_group(NetworkGroup(
+                        eval=getattr(self, f"critics_{k + 1}"),
+                        shared=getattr(self, f"critic_targets_{k + 1}") if has_t else None, multiagent=True))
+                else:
+                    self.register_network_group(NetworkGroup(
+                        eval=getattr(self, f"critic_{k + 1}"),
+                        shared=getattr(self, f"critic_target_{k + 1}") if has_t else None))
+
+        def _eval_target_pairs(self):
+            for g in self.registry.groups:
+                sh = g.shared if g.shared is not None else []
+                for s in (sh if isinstance(sh, list) else [sh]):
+                    yield g.eval, s
+
+        def get_action(self, obs, *args, **kwargs):
+            pol = self.registry.policy
+            nets = getattr(self, pol)
+            x = torch.as_tensor(np.asarray(obs), dtype=torch.float32)
+            with torch.no_grad():
+                outs = [m(x).numpy() for m in (nets if isinstance(nets, list) else [nets])]
+            return np.concatenate(outs, axis=-1)
+
+        def learn(self, experiences, **kwargs):
+            x = experiences
+            loss = 0.0
+            for g in self.registry.groups:
+                nets = getattr(self, g.eval)
+                for m in (nets if isinstance(nets, list) else [nets]):
+                    loss = loss + ((m(x) - 1.0) ** 2).mean()
+            opts = []
+            for oc in self.registry.optimizers:
+                w = getattr(self, oc.name)
+                opts += list(w.optimizer) if isinstance(w.optimizer, list) else [w.optimizer]
+            for o in opts:
+                o.zero_grad()
+            loss.backward()
+            for o in opts:
+                o.step()
+            for e, t in self._eval_target_pairs():        # soft update
+                en, tn = getattr(self, e), getattr(self, t)
+                for em, tm in zip(en if isinstance(en, list) else [en], tn if isinstance(tn, list) else [tn]):
+                    for tp, ep in zip(tm.parameters(), em.parameters()):
+                        tp.data.copy_(self.tau * ep.data + (1 - self.tau) * tp.data)
+            return float(loss)
+
+        def test(self, *args, **kwargs):
+            return 0.0
+
+    _SYN["cls"] = SynAlgo
+    return SynAlgo
+
+
+def syn_build(case: dict, i: int):
+    from gymnasium import spaces
+    from agilerl.algorithms.core.registry import HyperparameterConfig, RLParameter
+    shape = case["shape"]
+    names = case.get("hps") or (sorted(set(syn_lr_plan(shape))) + ["batch_size"])
+    kw = {h: (RLParameter(min=2, max=64, dtype=int) if h == "batch_size" else RLParameter(min=1e-6, max=1e-1)) for h in names}
+    # distinct float objects with distinct values: OptimizerWrapper infers lr_name by identity
+    return syn_class()(spaces.Box(-1, 1, (4,), dtype=np.float32), spaces.Box(-1, 1, (2,), dtype=np.float32), index=i,
+                       shape=shape, lr=float("0.0009765625"), lr_b=float("0.001953125"), lr_c=float("0.00390625"),
+                       hp_config=HyperparameterConfig(**kw))
+
+
+def syn_shapes():
+    """the registry shapes, systematically: policy with / without target x 0..2 extra evaluation groups
+    with / without target x optimizer layout x lr sharing x list groups"""
+    out = []
+    for pt in (False, True):
+        for extras in ([], [False], [True], [True, False], [False, True], [True, True]):
+            layouts = ["per-net"] + (["joint"] if extras else []) + (["joint-extras"] if len(extras) > 1 else [])
+            for opt in layouts:
+                lrs = ["separate"] if opt == "joint" or not extras else ["separate", "shared", "mixed"]
+                if opt == "joint-extras":
+                    lrs = ["separate", "shared"]
+                for lr in lrs:
+                    if lr == "mixed" and len(extras) < 2:
+                        continue
+                    out.append({"pt": pt, "extras": extras, "opt": opt, "lr": lr, "multi": False})
+            for lr in (["separate", "shared"] if extras else ["separate"]):
+                out.append({"pt": pt, "extras": extras, "opt": "per-net", "lr": lr, "multi": True})
+    return out
+
+
 def build_population(case: dict):
     import agents as A
     algo, fam = case["algo"], case["family"]
+    if algo == SYN:
+        return [syn_build(case, i) for i in range(case["size"])]
     pop = []
     for i in range(case["size"]):
         kw = {}
@@ -518,6 +715,10 @@ def build_population(case: dict):
 
 def learn_round(agent, algo: str, fam: str, seed: int) -> None:
     import agents as A
+    if algo == SYN:
+        g = torch.Generator().manual_seed(seed)
+        agent.learn(torch.randn(int(agent.batch_size), 4, generator=g))
+        return
     for r in range(int(getattr(agent, "policy_freq", 1) or 1)):
         A.learn_once(agent, algo, fam, seed=seed + r)
 
@@ -659,8 +860,11 @@ def run_history(chk: Check, case: dict, mode: str = "repaired") -> dict:
                     # ---- oracle: every agent can still act
                     for i, ag in enumerate(pop):
                         try:
-                            obs = A.sample_obs(ag, algo, fam, 2, seed=mseed + i)
-                            act = A.greedy_action(ag, algo, obs, torch_seed=3)
+                            if algo == SYN:
+                                act = ag.get_action(np.random.default_rng(mseed + i).uniform(-1, 1, (2, 4)))
+                            else:
+                                obs = A.sample_obs(ag, algo, fam, 2, seed=mseed + i)
+                                act = A.greedy_action(ag, algo, obs, torch_seed=3)
                             flat = np.concatenate([np.asarray(v, dtype=np.float64).reshape(-1) for v in
                                                    (act.values() if isinstance(act, dict) else [act])])
                             if not np.all(np.isfinite(flat)):
@@ -797,7 +1001,7 @@ def case_list(chk: Check):
     for f in sorted((ROOT / "corpus" / "C02").glob("*.json")):
         c = json.loads(f.read_text())
         c = c.get("replay", c)
-        cases.append({k: c[k] for k in ("algo", "family", "share", "seed", "size", "ops") if k in c} |
+        cases.append({k: c[k] for k in ("algo", "family", "share", "seed", "size", "ops", "shape") if k in c} |
                      ({"hps": c["hps"]} if c.get("hps") else {}) | {"origin": f.name})
     quick = chk.tier == "quick"
     for algo in A.ALGOS:
@@ -829,6 +1033,17 @@ def case_list(chk: Check):
                     ["mutate", list(UNIT["arch"]), 0, rng.randrange(1 << 16), 1], ["learn", 1, rng.randrange(1 << 16)]]
             cases.append({"algo": algo, "family": "vector", "share": None, "seed": rng.randrange(1 << 20), "size": 2,
                           "ops": ops})
+    # registry shapes the built-in algorithms do not exercise: synthetic algorithms (public API)
+    shapes = syn_shapes()
+    must = [sh for sh in shapes if not sh["pt"] and any(sh["extras"])]         # target-less policy, critic with target
+    picked = rng.sample(must, k=2 if quick else 6) + rng.sample(shapes, k=8 if quick else 30)
+    for sh in picked:
+        size = 2
+        ops = [["learn", i, rng.randrange(1 << 16)] for i in range(size)]       # in-training: targets lag behind
+        ops += gen_ops(rng, 2 if quick else 4, size, rng.choice(KINDS))
+        ops += [["mutate", list(UNIT["arch"]), 0, rng.randrange(1 << 16), 1], ["learn", 0, rng.randrange(1 << 16)]]
+        cases.append({"algo": SYN, "family": "vector", "share": None, "seed": rng.randrange(1 << 20), "size": size,
+                      "shape": sh, "ops": ops})
     # other observation families
     fams = ["image", "dict", "discrete", "tuple"]
     extra = 5 if quick else 16
@@ -889,12 +1104,22 @@ def report(chk: Check, case: dict, res: dict, do_shrink: bool = True) -> None:
                    "script": script_for(small),
                    "correspondence": "harness/c02.py vs Model/Coherence.lean", "theorems": chk.gate["theorems"]})
     head = f"{case['algo']}/{case['family']}/share={case.get('share')}: "
+    if case.get("shape"):
+        head = f"{case['algo']} {json.dumps(case['shape'], separators=(',', ':'))}: "
     if by_oracle:
         chk.violation(head + res["problems"][0], replay)
     else:
         chk.violation(head + f"implementation and Coherence model disagree at {res['lines'][d]!r}: impl={res['impl'][d]!r} "
                       f"model={res['model'][d]!r}; the property oracle holds on this history and its shrinks",
                       replay, no_input=True)
+
+
+def syn_tags(case: dict) -> list:
+    sh = case.get("shape")
+    if not sh:
+        return []
+    return [f"syn-policy-{'target' if sh['pt'] else 'no-target'}", f"syn-extras-{''.join('T' if t else 'n' for t in sh['extras']) or '0'}",
+            f"syn-opt-{sh['opt']}", f"syn-lr-{sh['lr']}", f"syn-{'multi' if sh['multi'] else 'single'}"]
 
 
 def run(chk: Check) -> None:
@@ -916,11 +1141,12 @@ def run(chk: Check) -> None:
     for case in cases:
         res = run_history(chk, case)
         kinds = {t for t in res["tags"] if t.startswith("kind-") and t != "kind-none"}
-        chk.case([case["algo"], case["family"], case.get("share"), case["seed"], case["ops"], case.get("hps")],
+        chk.case([case["algo"], case["family"], case.get("share"), case["seed"], case["ops"], case.get("hps"),
+                  case.get("shape")],
                  nontrivial=bool(kinds) and "learn" in res["tags"],
                  sample={"algo": case["algo"], "family": case["family"], "share_encoders": case.get("share"),
                          "size": case["size"], "ops": case["ops"][:5]},
-                 tags=res["tags"] + [f"algo-{case['algo']}", f"obs-{case['family']}"])
+                 tags=res["tags"] + [f"algo-{case['algo']}", f"obs-{case['family']}"] + syn_tags(case))
         chk.corr["model_lines"] += len(res["lines"])
         if res["problems"] or res["diff"] is not None:
             ndiff += res["diff"] is not None
@@ -1018,6 +1244,25 @@ def selftest(chk: Check) -> None:
         Mutations.rl_hyperparam_mutation = o_hp
 
 
+    # 2b. registry shape no built-in has: target-less policy + critic with target; targets only
+    #     re-created when the POLICY group has a shared network
+    def mutation_policy_targets_only(self, population, pre_training_mut=False):
+        old = [{s: getattr(ag, s) for g in ag.registry.groups if g.shared
+                for s in (g.shared if isinstance(g.shared, list) else [g.shared])}
+               if not any(g.policy and g.shared for g in ag.registry.groups) else {} for ag in population]
+        out = o_mut(self, population, pre_training_mut)
+        for ag, d in zip(out, old):
+            for s, v in d.items():
+                setattr(ag, s, v)
+        return out
+    Mutations.mutation = mutation_policy_targets_only
+    try:
+        must_fail("targets re-created only when the policy has one (synthetic SAC-like registry)",
+                  dict(base, algo=SYN, shape={"pt": False, "extras": [True], "opt": "per-net", "lr": "separate", "multi": False},
+                       ops=[["learn", 0, 3], ["learn", 1, 4], ["mutate", UNIT["none"], 0, 11, 1]]),
+                  "does not hold the weights of")
+    finally:
+        Mutations.mutation = o_mut
     # 5. multi-agent: every critic gets the arguments sub-agent 0's actor drew
     o_apply = Mutations._apply_arch_mutation
 
@@ -1037,7 +1282,7 @@ def selftest(chk: Check) -> None:
 def replay(chk: Check, path: str) -> int:
     c = json.loads(open(path).read())
     c = c.get("replay", c)
-    case = {k: c[k] for k in ("algo", "family", "share", "seed", "size", "ops", "hps") if k in c}
+    case = {k: c[k] for k in ("algo", "family", "share", "seed", "size", "ops", "hps", "shape") if k in c}
     case.setdefault("share", None)
     res = run_history(chk, case)
     d = res["diff"]
